@@ -1,6 +1,8 @@
 /-
 Driver for C15.  One case = one PALS workload
-  `pw <self> <minLen> <minIdMilli> <maxMemMB> <plants> <target> <query|->\t<observation>`.
+  `pw <self> <minLen> <minIdMilli> <maxMemMB> <plants> <target> <query|->\t<observation>`
+(or `pt <minLen> <minIdMilli> <plants> <traps> <target> <query>`: the aligner run on a given
+trapezoid list through `AlignFrom`, same statement).
 The kernel is modelled by its contract only, so there is no model output to compare hit by hit;
 what runs here is the executable statement of the property on the implementation's hits:
 
@@ -282,7 +284,7 @@ def handleOptimise (tlen qlen minLen mem off : Int) (obs : String) : Verdict :=
     | _, _ => bad "observation"
   | _ => bad "observation"
 
-def ops : List String := ["pw", "po"]
+def ops : List String := ["pw", "po", "pt"]
 
 def handle (line : String) : String :=
   let (inp, obs) := splitCase line
@@ -294,6 +296,13 @@ def handle (line : String) : String :=
       let query := if self then target else lettersOf q
       (handleCase self minLen minId mem plants target query obs).render
     | _, _, _, _, _ => (bad "input").render
+  | ["pt", minLen, minId, plants, _traps, t, q] =>
+    -- the aligner on a given trapezoid list (two sequences, forward strand): same statement as `pw`
+    match parseInt minLen, parseInt minId, parsePlants plants with
+    | some minLen, some minId, some plants =>
+      let v := handleCase false minLen minId 64 plants (lettersOf t) (lettersOf q) obs
+      ({ v with tags := "given-trapezoids" :: v.tags }).render
+    | _, _, _ => (bad "input").render
   | ["po", tlen, qlen, minLen, _minId, mem, off] =>
     match parseInt tlen, parseInt qlen, parseInt minLen, parseInt mem, parseInt off with
     | some tlen, some qlen, some minLen, some mem, some off => (handleOptimise tlen qlen minLen mem off obs).render
